@@ -381,26 +381,31 @@ pub fn ptr_wrappers() {
 /// [C04] any aws-lc allocation may fail (NULL): constructors return Err or a usable value; no panic, no double free, no
 /// leak on any error path. (Clone uses unwrap/assert by design — "unable to clone signing key" — and is not in scope:
 /// running out of memory aborts a Rust program in the same way.)
-pub fn alloc_fail_keys() {
+pub fn alloc_fail_signing_key() {
     let sk: [u8; 48] = kani::any();
-    let pk: [u8; 49] = kani::any();
     ffi::alloc_may_fail(true);
     let k = SigningKey::from_sec1_bytes(&sk);
     if let Ok(k) = &k {
         let e = k.encode();
         vassert!(e == sk, "[C08] a secret key constructed under memory pressure is still the decoded scalar");
     }
+    kani::cover!(k.is_ok(), "constructed");
+    kani::cover!(k.is_err(), "construction failed");
+    drop(k);
+    vassert!(ffi::live() == 0, "[C04] failed or successful secret key construction frees every aws-lc object exactly once");
+}
+pub fn alloc_fail_verifying_key() {
+    let pk: [u8; 49] = kani::any();
+    ffi::alloc_may_fail(true);
     let v = VerifyingKey::from_sec1_bytes(&pk);
     if let Ok(v) = &v {
         let e = v.compressed_pub_key();
         vassert!(e == pk, "[C08] a public key constructed under memory pressure is still the decoded point");
     }
-    kani::cover!(k.is_ok() && v.is_ok(), "both constructed");
-    kani::cover!(k.is_err(), "secret key construction failed");
-    kani::cover!(v.is_err(), "public key construction failed");
-    drop(k);
+    kani::cover!(v.is_ok(), "constructed");
+    kani::cover!(v.is_err(), "construction failed");
     drop(v);
-    vassert!(ffi::live() == 0, "[C04] failed or successful key construction frees every aws-lc object exactly once");
+    vassert!(ffi::live() == 0, "[C04] failed or successful public key construction frees every aws-lc object exactly once");
 }
 pub fn alloc_fail_signature() {
     let sk: [u8; 48] = kani::any();
@@ -471,7 +476,7 @@ inst! {
     signature_from_bytes_96 = signature_from_bytes(96); signature_from_bytes_97 = signature_from_bytes(97);
     dh_commutes_h = dh_commutes();
     ptr_wrappers_h = ptr_wrappers();
-    alloc_fail_keys_h = alloc_fail_keys();
+    alloc_fail_signing_key_h = alloc_fail_signing_key(); alloc_fail_verifying_key_h = alloc_fail_verifying_key();
     alloc_fail_signature_h = alloc_fail_signature();
     canary_lc_h = canary_lc();
 }
